@@ -277,6 +277,7 @@ type qDevice struct {
 //	q=10 Device(filter: {year: {_gt: c}, owner: {age: {_gt: c}}}) { model }   own condition and a condition on the parent
 //	q=11 Device(order: {owner: {age: ASC}}) { model owner { age } }       children ordered by a field of their parent
 //	q=12 User(filter: {devices: {year: {_gt: c}}}) { name _count(devices: {filter: {model: {_eq: "good"}}}) }
+//	q=13 User(filter: {devices: {year: {_gt: c}}}) { name devices(limit: 1) { model } }     limited children
 //
 // idx: bit 0 = secondary index on Device.year, bit 1 = secondary index on User.age
 func VerifH_C09_OneToMany() {
@@ -322,7 +323,7 @@ func VerifH_C09_OneToMany() {
 	case 1:
 		sel = &request.Select{Field: request.Field{Name: "Device"}, ChildSelect: request.ChildSelect{Fields: []request.Selection{
 			qField("model"), &request.Select{Field: request.Field{Name: "owner"}, ChildSelect: request.ChildSelect{Fields: []request.Selection{qField("name")}}}}}}
-	case 2, 3, 4, 6, 7, 8, 12:
+	case 2, 3, 4, 6, 7, 8, 12, 13:
 		cond := yearGt
 		if q == 3 {
 			cond = map[string]any{"year": map[string]any{"_gt": c}, "model": map[string]any{"_eq": "good"}}
@@ -334,6 +335,10 @@ func VerifH_C09_OneToMany() {
 		if q == 6 {
 			fields = append(fields, &request.Select{Field: request.Field{Name: "devices"}, ChildSelect: request.ChildSelect{Fields: []request.Selection{qField("model"), qField("year")}},
 				Orderable: request.Orderable{OrderBy: immutable.Some(request.OrderBy{Conditions: []request.OrderCondition{{Fields: []string{"year"}, Direction: request.ASC}}})}})
+		}
+		if q == 13 {
+			fields = append(fields, &request.Select{Field: request.Field{Name: "devices"}, ChildSelect: request.ChildSelect{Fields: []request.Selection{qField("model")}},
+				Limitable: request.Limitable{Limit: immutable.Some(uint64(1))}})
 		}
 		if q == 7 {
 			fields = append(fields, &request.Aggregate{Field: request.Field{Name: request.CountFieldName}, Targets: []*request.AggregateTarget{{HostName: "devices"}}})
@@ -373,7 +378,7 @@ func VerifH_C09_OneToMany() {
 		return ok
 	}
 	switch q {
-	case 0, 2, 3, 4, 6, 7, 8, 9, 12:
+	case 0, 2, 3, 4, 6, 7, 8, 9, 12, 13:
 		// expected parents
 		var want [2]bool
 		for u := range qUserIDs {
@@ -407,6 +412,29 @@ func VerifH_C09_OneToMany() {
 				}
 				n, _ := row[request.CountFieldName].(int)
 				vAssert(n == wantKids, "count-through-the-relation-is-the-number-of-related-documents")
+			}
+			if q == 13 {
+				kids, _ := row["devices"].([]map[string]any)
+				have := 0
+				for d := range devs {
+					if devs[d].owner == u {
+						have++
+					}
+				}
+				if have > 1 {
+					have = 1
+				}
+				vAssert(len(kids) == have, "limited-children-are-as-many-as-the-limit-allows")
+				for _, k := range kids {
+					m, _ := k["model"].(string)
+					found := false
+					for d := range devs {
+						if devs[d].owner == u && qModels[devs[d].model] == m {
+							found = true
+						}
+					}
+					vAssert(found, "related-documents-are-exactly-those-pointing-to-the-parent")
+				}
 			}
 			if q == 6 || q == 9 {
 				kids, _ := row["devices"].([]map[string]any)
